@@ -26,6 +26,7 @@ def prop_types(full):
         ("array-struct", ARR(R("Range"))), ("map-str-base", {"kind": "map", "key": B("string"), "value": B("integer")}),
         ("tuple", {"kind": "tuple", "items": [B("uinteger"), B("string")]}), ("struct-or-null", OR(R("Position"), B("null"))),
         ("null-or-string", OR(B("null"), B("string"))),
+        ("ref-open-integer-enum", R("ErrorCodes")), ("map-str-open-enum", {"kind": "map", "key": B("string"), "value": R("LanguageKind")}),
         ("literal", {"kind": "literal", "value": {"properties": [
             {"name": "first", "type": B("string")}, {"name": "secondValue", "type": OR(B("uinteger"), B("null"))},
             {"name": "third", "type": B("boolean"), "optional": True}]}}),
@@ -104,6 +105,9 @@ def e2_new_property(doc, full, owners=None):
         for i, (tl, t) in enumerate(types):
             ol, o = owners[i % len(owners)]
             combos.append((ol, o, tl, t, names[i % len(names)], i % 3 != 0))
+        # combinations that need two things at once: a Python keyword that is also always-written
+        combos.append(("leaf", LEAF, "base-or-null", OR(B("string"), B("null")), "global", False))
+        combos.append(("params", PARAMS, "literal-kind", {"kind": "stringLiteral", "value": "verif"}, "class", False))
     for ol, o, tl, t, nm, opt in combos:
         d = copy.deepcopy(doc)
         p = {"name": nm, "type": copy.deepcopy(t)}
@@ -125,6 +129,17 @@ def e3_inheritance(doc, full):
     d["structures"].append({"name": "VerifMixed", "properties": [{"name": "verifOwn", "type": B("string")}], "mixins": [R(MIXIN)],
                             "extends": [R("Position")]})
     out.append(("new structure extending Position with mixin %s" % MIXIN, "E3:mixin", d))
+    d = copy.deepcopy(doc)
+    d["structures"].append({"name": "VerifVersionBase", "properties": [{"name": "version", "type": B("integer"), "optional": True}, {"name": "uri", "type": B("DocumentUri")}]})
+    d["structures"].append({"name": "VerifVersionMixin", "properties": [{"name": "version", "type": OR(B("integer"), B("null"))}]})
+    d["structures"].append({"name": "VerifBothParams", "properties": [], "extends": [R("VerifVersionBase")], "mixins": [R("VerifVersionMixin")]})
+    d["notifications"].append({"method": "verif/both", "typeName": "VerifBothNotification", "params": R("VerifBothParams"), "messageDirection": "clientToServer"})
+    out.append(("new structure getting the same property from its base (optional integer) and from a mixin (integer|null)", "E3:same-prop-two-ancestors", d))
+    d = copy.deepcopy(doc)
+    d["structures"].append({"name": "VerifRevision", "properties": [{"name": "revision", "type": B("integer")}]})
+    d["structures"].append({"name": "VerifSavedRevision", "properties": [{"name": "revision", "type": B("uinteger")}], "extends": [R("VerifRevision")]})
+    d["structures"].append({"name": "VerifPublishedRevision", "properties": [{"name": "label", "type": B("string"), "optional": True}], "extends": [R("VerifSavedRevision")]})
+    out.append(("two-level extends chain whose middle structure narrows an integer property to uinteger", "E3:chain-override", d))
     d = copy.deepcopy(doc)
     d["structures"].append({"name": "VerifDeepMixed", "properties": [{"name": "verifOwn", "type": B("string"), "optional": True}],
                             "mixins": [R("HoverParams")]})
@@ -159,6 +174,10 @@ def e4_enums(doc, full):
     d = copy.deepcopy(doc)
     _enum(d, "MarkupKind")["values"].append({"name": "VerifValue", "value": "verifvalue"})
     out.append(("value appended to closed enumeration MarkupKind", "E4:append-closed", d))
+    d = copy.deepcopy(doc)
+    _enum(d, "TextDocumentSaveReason")["supportsCustomValues"] = False
+    _enum(d, "MarkupKind")["supportsCustomValues"] = False
+    out.append(("closed enumerations spell out supportsCustomValues: false", "E4:explicit-false", d))
     d = copy.deepcopy(doc)
     _enum(d, "CodeActionKind")["values"].append({"name": "VerifValue", "value": "verif.value", "proposed": True})
     out.append(("proposed value appended to open enumeration CodeActionKind", "E4:append-open", d))
